@@ -4196,7 +4196,10 @@ Case_BaseLdurStur:
           goto InvalidElementIndex;
 
         if (o1.as<Reg>().is_gp()) {
-          // INS - Vec[N] <- GP register.
+          // INS - Vec[N] <- GP register (W register for B|H|S elements, X register for D elements).
+          if (uint32_t(o1.as<Reg>().is_gp64()) != uint32_t(element_type == uint32_t(VecElementType::kD)))
+            goto InvalidInstruction;
+
           opcode.reset(0b0100111000000000000111 << 10);
           opcode.add_imm(imm5, 16);
           goto EmitOp_Rd0_Rn5;
